@@ -107,8 +107,20 @@ def parents(tier):
     out.append(("ctl", {"U": " b", "c": "c "}, {"SU": " s1"}, True))
     # several control spellings in one mapping
     out.append(("ctl", {"U": "zlast", "__zero__": True}, smaps[1], False))
-    out.append(("", {"U": "0first", "__zero__": True}, smaps[2], True))
+    out.append(("", {"U": "0first", "__zero__": True}, smaps[2], False))
     return out
+
+
+def COST(item):
+    """Rough relative running time of a work item (scheduling hint only)."""
+    if item.get("large") or item.get("cli_train"):
+        return 0.5
+    v = item.get("variant") or ["", {}, {}, False]
+    c = 4.0 if v[3] else 1.0
+    c *= 2.0 if item.get("fraction") == 0.5 else 1.0
+    c *= 1.5 if item.get("debug") or item.get("cli") == "segregate" else 1.0
+    c *= 2.0 if isinstance(v[1], dict) and v[1].get("__zero__") else 1.0
+    return c
 
 
 def plan(tier, seed):
